@@ -16,7 +16,12 @@ for i in ids:
     prop = meta["property"]
     assert subprocess.run(["git", "-C", "/repo", "status", "--porcelain"], capture_output=True, text=True).stdout.strip() == "", "/repo not clean"
     try:
-        subprocess.run(["git", "-C", "/repo", "apply", os.path.join(d, "patch.diff")], check=True)
+        pf = os.path.join(d, "patch.diff")
+        if subprocess.run(["git", "-C", "/repo", "apply", pf]).returncode != 0:
+            # /repo has moved on since the change was written (later repairs): merge it, and keep the refreshed patch
+            subprocess.run(["git", "-C", "/repo", "apply", "--3way", pf], check=True)
+            subprocess.run(["git", "-C", "/repo", "reset", "-q"], check=True)
+            open(pf, "w").write(subprocess.run(["git", "-C", "/repo", "diff", "--", "src"], capture_output=True, text=True).stdout)
         p = subprocess.run([os.path.join(HERE, "check"), prop, "--tier", "quick"], capture_output=True, text=True, cwd=HERE, env=env)
     finally:
         subprocess.run(["git", "-C", "/repo", "checkout", "--", "."], check=True)
